@@ -37,6 +37,11 @@ def configs(tier):
             for mode in ("none", "list", "dict", "self"):
                 out.append({"fn": "KL", "flavour": flav, "n": n, "mode": mode})
     out.append({"fn": "kwargs"})
+    # NLL against the contracts of its callees (rotated amplitudes / probabilities, normalisation) for a data set that
+    # holds every basis string of a longer chain: the grouping by basis and the averaging, at a size the full symbolic
+    # rotation does not reach
+    out.append({"fn": "NLL-grouping", "flavour": "pure", "n": 6 if tier == "quick" else 7})
+    out.append({"fn": "NLL-grouping", "flavour": "mixed", "n": 6})
     out.append({"generic": "every shape"})
     out.append({"lean": "size-generic lemmas"})
     return out
@@ -160,7 +165,7 @@ def run_config(ctx, cfg):
         return gsets.run(ctx, "C10")
     if cfg["fn"] == "kwargs":
         return _kwargs(ctx)
-    return {"fidelity": _fidelity, "NLL": _nll, "KL": _kl}[cfg["fn"]](ctx, cfg)
+    return {"fidelity": _fidelity, "NLL": _nll, "KL": _kl, "NLL-grouping": _nll_grouping}[cfg["fn"]](ctx, cfg)
 
 
 def _uc():
@@ -298,6 +303,66 @@ def _nll(ctx, cfg):
         want = want - alg.log(_rot_probs(m, Ud)[k] * alg.inv(m.Z))
     ctx.eq("NLL/per-sample bases == -(1/M) sum log(P_b(s)/Z)", _val(v) * len(rows), want, z3_confirm=False)
     ctx.holds("NLL/samples not modified", torch.equal(samples, keep))
+
+
+def _nll_grouping(ctx, cfg):
+    from fractions import Fraction as Fr
+    from qucumber.utils import training_statistics as ts
+    from drivers import common as DC
+    import random
+    n, flav = cfg["n"], cfg["flavour"]
+    state = DC.make_state("complex" if flav == "pure" else "mixed", n, 1, 1)
+    ctx.under_contract("training_statistics.NLL")
+    ctx.stub("unitaries.rotate_psi_inner_prod", "unitaries.rotate_rho_probs", "nn_state.probability", "nn_state.normalization")
+    rnd = random.Random(n)
+    strings = ["".join(s) for s in itertools.product("XYZ", repeat=n)]
+    rnd.shuffle(strings)
+    bs = strings + rnd.sample(strings, 40)                   # every basis once, some twice, in no particular order
+    rows = [rnd.randrange(2 ** n) for _ in bs]
+    samples = torch.tensor([[(k >> (n - 1 - s)) & 1 for s in range(n)] for k in rows], dtype=torch.double)
+    barr = np.array([list(b) for b in bs])
+    Zp = alg.uf("Z", "pos")
+    seen = []
+
+    def P_(b, k):
+        return alg.uf("P[%s,%d]" % (b, k), "pos")
+
+    def idx(v):
+        return [int(sum(int(x) << (n - 1 - i) for i, x in enumerate(r))) for r in v.tolist()]
+
+    def amp_stub(nn_state, basis, states, **kw):
+        b = "".join(basis)
+        ks = idx(states)
+        seen.extend((b, k) for k in ks)
+        out = np.empty((2, len(ks)), dtype=object)
+        for j, k in enumerate(ks):
+            # an amplitude of squared modulus P[b,k]: sqrt(P) * (3/5 + 4/5 i)
+            r = alg.sqrt(P_(b, k))
+            out[0, j], out[1, j] = r * Fr(3, 5), r * Fr(4, 5)
+        return st.SymTensor(out)
+
+    def prob_rot_stub(nn_state, basis, states, **kw):
+        b = "".join(basis)
+        ks = idx(states)
+        seen.extend((b, k) for k in ks)
+        return st.SymTensor(np.array([P_(b, k) for k in ks], dtype=object))
+
+    def prob_stub(v, Z=1.0):
+        ks = idx(v)
+        seen.extend(("Z" * n, k) for k in ks)
+        return st.SymTensor(np.array([P_("Z" * n, k) for k in ks], dtype=object)) / Z
+    keep = samples.clone()
+    with N.stubbed(ts, "rotate_psi_inner_prod", amp_stub), N.stubbed(ts, "rotate_rho_probs", prob_rot_stub), \
+            N.stubbed(state, "probability", prob_stub), N.stubbed(state, "normalization", lambda space: st.SymTensor(np.array(Zp, dtype=object).reshape(()))):
+        v = ts.NLL(state, samples, torch.zeros(1, n, dtype=torch.double), sample_bases=barr)
+    ctx.holds("NLL-grouping/returns a plain real number", _is_plain_real(v), type(v).__name__)
+    ctx.holds("NLL-grouping/every sample is scored exactly once, in its own basis", sorted(seen) == sorted(zip(bs, rows)),
+              "%d scored, %d expected; first difference %s" % (len(seen), len(bs), sorted(set(seen) ^ set(zip(bs, rows)))[:3]))
+    want = ZERO
+    for b, k in zip(bs, rows):
+        want = want - alg.log(P_(b, k) * alg.inv(Zp))
+    ctx.eq("NLL-grouping == -(1/M) sum_i log(P_(b_i)(s_i)/Z) over %d samples in %d bases of %d sites" % (len(bs), len(strings), n), _val(v) * len(bs), want, z3_confirm=False)
+    ctx.holds("NLL-grouping/samples not modified", torch.equal(samples, keep))
 
 
 def _kl(ctx, cfg):
